@@ -267,8 +267,13 @@ def build_l2(tmp, race, tier, seed, name="l2", genmode="base", kind="mixed", cor
         for attempt in range(12):
             # the compiler stops after ten errors per package: repeat until what is left builds
             gone = drop_files(mod, r.stdout)
+            if "registry_pse_gen.go" in r.stdout and os.path.isdir(os.path.join(mod, "corpus", "pse")):
+                # the package of special shapes has one registry file for all its programs
+                drop_package(mod, "pse")
+                pkgs[:] = [p for p in pkgs if p["name"] != "pse"]
+                gone = gone + [("pse", "*")]
             if not gone:
-                failing = sorted(set(re.findall(r"corpus/(p\d\d)/", r.stdout)))
+                failing = sorted(set(re.findall(r"corpus/([pq]\d\d)/", r.stdout)))
                 for n in failing:
                     drop_package(mod, n)
                 if not failing:
